@@ -24,6 +24,13 @@ HAS_INFO = {"instantiate", "exec"}
 MUT = {"instantiate", "exec", "sudo", "migrate"}
 
 
+def as_u64(expr, ty):
+    """the observation of an argument value as a u64 (an absent Option<u64> is u64::MAX, as in the recording Serializer)"""
+    if ty.startswith("Option<"):
+        return "(match %s { Some(v) => v as u64, None => u64::MAX })" % expr
+    return "%s as u64" % expr
+
+
 def camel(name):
     return "".join(w[:1].upper() + w[1:] for w in name.split("_") if w)
 
@@ -54,7 +61,7 @@ def handler_body(m, owner_kind, errty):
     lines.append("ctx.deps.api.debug(\"abc\");")
     lines.append("let mut o = Obs::new(%d);" % m.h)
     for i, (a, t) in enumerate(m.args):
-        lines.append("o.args[%d] = %s as u64;" % (i, a))
+        lines.append("o.args[%d] = %s;" % (i, as_u64(a, t)))
     lines.append("o.height = ctx.env.block.height;")
     if m.kind in HAS_INFO:
         lines.append("o.sender_len = ctx.info.sender.as_str().len() as u64;")
@@ -134,7 +141,7 @@ def dispatch_harness(fx, m, msg_expr, hname, via, expect_h, props, tier, clause,
         checks.append("            Err(Echo::H(o)) => {")
         checks.append("                assert!(o.h == %d);" % expect_h)
         for k, (a, t) in enumerate(m.args):
-            checks.append("                assert!(o.args[%d] == x%d as u64);" % (k, k))
+            checks.append("                assert!(o.args[%d] == %s);" % (k, as_u64("x%d" % k, t)))
         for k in range(len(m.args), 12):
             checks.append("                assert!(o.args[%d] == 0);" % k)
         checks.append("                assert!(o.height == h);")
@@ -204,7 +211,7 @@ def shape_harness(fx, m, msg_path, hname, props, tier, wrapper=None, list_fn=Non
         lines.append("assert!(sh.kind == 1);")
     lines.append("assert!(sh.n == %d && sh.declared_len == %d && sh.skipped == 0);" % (len(m.args), len(m.args)))
     for k, (a, t) in enumerate(m.args):
-        lines.append("assert!(sh.keys[%d] == \"%s\" && sh.vals[%d] == x%d as u64);" % (k, a, k, k))
+        lines.append("assert!(sh.keys[%d] == \"%s\" && sh.vals[%d] == %s);" % (k, a, k, as_u64("x%d" % k, t)))
     # constructor builds the same value as the literal
     if enum:
         ctor = "%s::%s(%s)" % (msg_path, m.name, ", ".join("x%d" % k for k in range(len(m.args))))
@@ -262,8 +269,11 @@ def list_harness(fx, kind, msg_path_prefix, methods, hname, props, tier):
 def decode_harness(fx, kind, msg_path, methods, m, hname, props, tier, keylen=12):
     """C01 script (a): Msg::deserialize({<own name>: {fields of m}}) is Ok(V_m{args}) with equal values."""
     enum = kind in KIND_WRAP
-    fields = ", ".join("(\"%s\", script::Sv::U(x%d as u64))" % (a, k) for k, (a, t) in enumerate(m.args))
+    fields = ", ".join("(\"%s\", script::Sv::U(%s))" % (a, as_u64("x%d" % k, t)) for k, (a, t) in enumerate(m.args))
     lines = []
+    for k, (a, t) in enumerate(m.args):
+        if t.startswith("Option<"):
+            lines.append("kani::assume(x%d.is_some());   // the script presents a present value; an absent one is serde's default for Option" % k)
     lines.append("let fields: [(&str, script::Sv); %d] = [%s];" % (len(m.args), fields))
     if enum:
         lines.append("let r = %s::deserialize(script::ED { key: \"%s\", fields: &fields });" % (msg_path, m.wire()))
@@ -343,7 +353,7 @@ def cross_kind_decode_harness(fx, k1m, k2, k2_path, k2_methods, hname, props, ti
         # in fx_odd the wire name of a method is not its identifier (`setup_2` serialises as `setup2`, which is also
         # the identifier of the instantiate handler): the table cannot say which keys the other kind must reject
         return ""
-    fields = ", ".join("(\"%s\", script::Sv::U(x%d as u64))" % (a, k) for k, (a, t) in enumerate(k1m.args))
+    fields = ", ".join("(\"%s\", script::Sv::U(%s))" % (a, as_u64("x%d" % k, t)) for k, (a, t) in enumerate(k1m.args))
     body = """
     #[kani::proof]
     #[kani::unwind(%d)]
@@ -495,7 +505,7 @@ def entry_point_harness(fx, m, tier):
     call = "entry_points::%s(deps, env(h), %smsg)" % (epname, "info(sl), " if m.kind in HAS_INFO else "")
     checks = ["match &*r {", "            Err(Echo::H(o)) => {", "                assert!(o.h == %d);" % m.h]
     for k, (a, t) in enumerate(m.args):
-        checks.append("                assert!(o.args[%d] == x%d as u64);" % (k, k))
+        checks.append("                assert!(o.args[%d] == %s);" % (k, as_u64("x%d" % k, t)))
     checks.append("                assert!(o.height == h);")
     if m.kind in HAS_INFO:
         checks.append("                assert!(o.sender_len == sl as u64);")
@@ -599,6 +609,7 @@ def fx_basic(perm=False):
         M("migrate", "migrate", [("version", "u32")]),
         M("exec", "finish", [("code", "u8")], ret="ok"),         # Ok path: handler's response untouched
         M("exec", "convert_err", [("a", U)], ret="err_conv"),    # handler error type != contract error type: converted by Into
+        M("exec", "set_limit", [("limit", "Option<u64>"), ("note", U)]),   # an optional argument still has its own entry (null) on the wire
     ]
     number(ms)
     if perm:
